@@ -5,7 +5,8 @@ all orders of a 4-lookup sequence across two documents and two keys."""
 import os, sys, time, json, itertools
 sys.path.insert(0, os.path.join(os.path.dirname(os.path.abspath(__file__)), '..', 'lib'))
 sys.path.insert(0, os.path.dirname(os.path.abspath(__file__)))
-import vlib, refdoc as R, refxpath as X, xpgen as G
+import re
+import vlib, refdoc as R, refxpath as X, xpgen as G, xpparse
 from refxpath import num, s, fn, b, step, path, name, NODE, TEXTT, WILD, DOS
 
 PROP = 'C15'
@@ -18,6 +19,14 @@ PATH_TEMPLATES = '''<xsl:template name="path"><xsl:choose><xsl:when test="not(..
 '''
 
 A, Bn = name('a'), name('b')
+_TOK = re.compile(r"'[^']*'|::|//|\.\.|!=|<=|>=|[A-Za-z_][\w.-]*|\d+(?:\.\d+)?|\S")
+
+
+def P(text):
+    """(text, AST) through the reference token parser"""
+    return (text, xpparse.parse_tokens(_TOK.findall(text)))
+
+
 MATCHES = [
     ('a', path(step('child', A))),
     ('*', path(step('child', WILD))),
@@ -27,7 +36,10 @@ MATCHES = [
     ('a|b', b('|', path(step('child', A)), path(step('child', Bn)))),
     ('node()', path(step('child', NODE))),
     ('b[@x]', path(step('child', Bn, path(step('attribute', name('x')))))),
+    P('@*'), P('a[b]'), P('a[@x=1]'), P('//b'), P('r/a'), P('b[1]'), P('*[not(*)]'), P('comment()|processing-instruction()'),
+    P('b[last()]'), P('a/@x'),
 ]
+N_MATCH_Q = 8       # quick: the first 8 x all uses, the rest x the first 4 uses
 USES = [
     ('@x', path(step('attribute', name('x')))),
     ('.', path(step('self', NODE))),
@@ -38,6 +50,8 @@ USES = [
     ('b|@x', b('|', path(step('child', Bn)), path(step('attribute', name('x'))))),
     ('string-length(.)', fn('string-length', path(step('self', NODE)))),
     ('name()', fn('name')),
+    P('..'), P('ancestor::*/@x'), P('concat(@x,@y)'), P('@x+1'), P('b/@x'), P('not(@x)'), P('@y'), P('preceding-sibling::*[1]/@x'),
+    P('count(b)'), P('substring(.,1,1)'),
 ]
 
 
@@ -55,7 +69,11 @@ def docs():
         E('a', [('x', 'c')], ['2']),
     ])], name='M2')
     d3 = R.make_doc([E('a', [('x', '1')], [E('a', [('x', '1')], [E('a', [('x', '2')], ['1']), '2'])])], name='M3')
-    return [d1, d2, d3]
+    d4 = R.make_doc([R.C('c'), E('r', [('x', '1')], [
+        R.C('1'), E('a', [('x', '1'), ('y', '2')], ['c', R.C('2'), E('b', None, []), R.P('t', '1'), 'c']),
+        R.P('t', 'c'), E('b', [('x', '3')], [E('b', [('x', '1')], ['1']), '2', E('b', None, ['1'])]), E('a', None, []),
+    ]), R.P('u', '2')], name='M4')
+    return [d1, d2, d3, d4]
 
 
 def matches(m_ast, doc):
@@ -92,67 +110,105 @@ def esc(t):
     return t.replace('&', '&amp;').replace('<', '&lt;').replace('"', '&quot;')
 
 
-VALUES = ['1', '2', 'c', 'nosuch', '', 'a', 'b', '3', '0']
+VALUES = ['1', '2', 'c', 'nosuch', '', 'a', 'b', '3', '0', 'true', 'false', 'NaN', '12', 'c2c']
 
 
-def lookup_xml(i, kname, argtext, docsel):
+def lookup_xml(i, kname, argtext, docsel, tops):
+    """docsel: None (context = root of the main document), 'other.xml' (document()), 'ctx:<expr>' (context = that node of the main
+    document), 'rtf' (context = root of xalan:nodeset($t), $t holding the other document's content), 'pat' (key() as a match pattern)"""
     inner = '<l i="%d"><xsl:for-each select="key(\'%s\', %s)"><h><xsl:call-template name="path"/></h></xsl:for-each></l>' % (i, kname, esc(argtext))
+    if docsel == 'pat':
+        tops.append('<xsl:template match="key(\'%s\', %s)" mode="m%d"><h><xsl:call-template name="path"/></h></xsl:template>'
+                    '<xsl:template match="node()|@*|/" mode="m%d" priority="-5"/>' % (kname, esc(argtext), i, i))
+        return '<l i="%d"><xsl:apply-templates select="/|//node()|//@*" mode="m%d"/></l>' % (i, i)
+    if docsel == 'rtf':
+        return '<xsl:for-each select="xalan:nodeset($t)">%s</xsl:for-each>' % inner
+    if docsel and docsel.startswith('ctx:'):
+        return '<xsl:for-each select="%s">%s</xsl:for-each>' % (esc(docsel[4:]), inner)
     if docsel:
         return '<xsl:for-each select="document(\'%s\')">%s</xsl:for-each>' % (docsel, inner)
     return inner
 
 
-def stylesheet(decl_xml, lookups, imports=''):
-    return ('<xsl:stylesheet version="1.0" xmlns:xsl="%s">%s%s<xsl:template match="/"><out>%s</out></xsl:template>%s</xsl:stylesheet>'
-            % (XSL, imports, decl_xml, ''.join(lookups), PATH_TEMPLATES))
+def stylesheet(decl_xml, lookups, imports='', tops='', rtf=''):
+    return ('<xsl:stylesheet version="1.0" xmlns:xsl="%s" xmlns:xalan="http://xml.apache.org/xalan" xmlns:p="u1" xmlns:q1="u1" '
+            'exclude-result-prefixes="xalan p q1">%s%s<xsl:variable name="t">%s</xsl:variable>%s'
+            '<xsl:template match="/"><out>%s</out></xsl:template>%s</xsl:stylesheet>'
+            % (XSL, imports, decl_xml, rtf, tops, ''.join(lookups), PATH_TEMPLATES))
+
+
+SECOND = ((3, 0), (0, 1), (2, 1), (8, 10), (11, 3), (15, 12))
 
 
 def gen_cases(tier):
     """yields (family, decl description, decl_xml, imports(dict name->content), main_doc_index, other_doc_index,
-               lookups [(kname, argtext, docsel, decls, values or ('nodeset', expr_ast))])"""
+               lookups [(kname, argtext, docsel, decls, values or ('nodeset', expr_ast, context_expr_ast))])"""
     thorough = tier == 'thorough'
     D = docs()
-    # 1. every (match, use) declaration, every lookup value, on every document as main, plus a document() load
-    for (mt, m_ast) in MATCHES:
-        for (ut, u_ast) in USES:
+    ROOT = P('/')[1]
+    # 1. every (match, use) declaration, every lookup value, on every document as main, plus a document() load, deep and attribute
+    #    context nodes, the RTF of a variable, key() as a match pattern, number / boolean / node-set second arguments
+    for mi_, (mt, m_ast) in enumerate(MATCHES):
+        for ui_, (ut, u_ast) in enumerate(USES):
+            if not thorough and not (mi_ < N_MATCH_Q and ui_ < 9) and not ui_ < 4 and (mi_ + ui_) % 3:
+                continue
             decl = '<xsl:key name="k" match="%s" use="%s"/>' % (esc(mt), esc(ut))
+            dd = [(m_ast, u_ast)]
             for mi in range(len(D)):
                 oi = (mi + 1) % len(D)
                 lk = []
                 for v in VALUES:
-                    lk.append(('k', "'%s'" % v, None, [(m_ast, u_ast)], {v}))
-                    lk.append(('k', "'%s'" % v, 'other.xml', [(m_ast, u_ast)], {v}))
-                # number argument and node-set arguments
-                lk.append(('k', '1', None, [(m_ast, u_ast)], {'1'}))
-                lk.append(('k', '//b/@x', None, [(m_ast, u_ast)], ('nodeset', path(DOS, step('child', Bn), step('attribute', name('x')), start='root'))))
-                lk.append(('k', '//a', None, [(m_ast, u_ast)], ('nodeset', path(DOS, step('child', A), start='root'))))
-                lk.append(('k', '//nosuch', None, [(m_ast, u_ast)], ('nodeset', path(DOS, step('child', name('nosuch')), start='root'))))
+                    lk.append(('k', "'%s'" % v, None, dd, {v}))
+                    lk.append(('k', "'%s'" % v, 'other.xml', dd, {v}))
+                for v in ('1', '2', 'c'):
+                    lk.append(('k', "'%s'" % v, 'ctx:(//*)[last()]', dd, {v}))
+                    lk.append(('k', "'%s'" % v, 'ctx:(//@x)[last()]', dd, {v}))
+                    lk.append(('k', "'%s'" % v, 'rtf', dd, {v}))
+                    lk.append(('k', "'%s'" % v, 'pat', dd, {v}))
+                # number, boolean and node-set arguments
+                lk.append(('k', '1', None, dd, {'1'}))
+                lk.append(('k', '1 + 1', None, dd, {'2'}))
+                lk.append(('k', '0 div 0', 'other.xml', dd, {'NaN'}))
+                lk.append(('k', 'true()', None, dd, {'true'}))
+                for t in ('//b/@x', '//a', '//nosuch', '//text()', '/'):
+                    lk.append(('k', t, None, dd, ('nodeset', P(t)[1])))
+                lk.append(('k', '//b/@x', 'other.xml', dd, ('nodeset', P('//b/@x')[1])))
+                lk.append(('k', '//*', 'rtf', dd, ('nodeset', P('//*')[1])))
                 yield ('single', '%s use %s' % (mt, ut), decl, {}, mi, oi, lk)
-    # 2. two declarations with the same name (union), one of them in an import; and two different keys
+    # 2. two declarations with the same name (union), one of them in an import; QName key names compared by expanded name
     pairs = list(itertools.product(range(len(MATCHES)), range(len(USES))))
     sel = pairs if thorough else pairs[::5]
     for (m1, u1) in sel:
-        for (m2, u2) in ((3, 0), (0, 1), (2, 1)):
+        for (m2, u2) in (SECOND if thorough else SECOND[:3]):
             mt1, ma1 = MATCHES[m1]; ut1, ua1 = USES[u1]
             mt2, ma2 = MATCHES[m2]; ut2, ua2 = USES[u2]
             d1 = '<xsl:key name="k" match="%s" use="%s"/>' % (esc(mt1), esc(ut1))
             d2 = '<xsl:key name="k" match="%s" use="%s"/>' % (esc(mt2), esc(ut2))
             both = [(ma1, ua1), (ma2, ua2)]
-            lk = [('k', "'%s'" % v, ds, both, {v}) for v in ('1', '2', 'c') for ds in (None, 'other.xml')]
-            yield ('same-name-twice', '%s use %s + %s use %s' % (mt1, ut1, mt2, ut2), d1 + d2, {}, 0, 1, lk)
-            imp = '<xsl:stylesheet version="1.0" xmlns:xsl="%s">%s</xsl:stylesheet>' % (XSL, d2)
-            yield ('same-name-import', '%s use %s + import %s use %s' % (mt1, ut1, mt2, ut2), d1, {'imp.xsl': imp}, 0, 1, lk)
-    # 3. histories: all orders of a 4-lookup sequence across two documents and two keys
-    for (m1, u1) in sel:
+            lk = [('k', "'%s'" % v, ds, both, {v}) for v in ('1', '2', 'c') for ds in (None, 'other.xml', 'rtf', 'pat')]
+            for mi in (range(len(D)) if thorough else ((m1 + u1) % len(D),)):
+                yield ('same-name-twice', '%s use %s + %s use %s' % (mt1, ut1, mt2, ut2), d1 + d2, {}, mi, (mi + 1) % len(D), lk)
+                imp = '<xsl:stylesheet version="1.0" xmlns:xsl="%s">%s</xsl:stylesheet>' % (XSL, d2)
+                yield ('same-name-import', '%s use %s + import %s use %s' % (mt1, ut1, mt2, ut2), d1, {'imp.xsl': imp}, mi, (mi + 1) % len(D), lk)
+                # the same two declarations under a QName, looked up through another prefix of the same namespace; an unprefixed key of the
+                # same local name is a different key
+                dq = d1.replace('name="k"', 'name="p:k"') + d2.replace('name="k"', 'name="k"')
+                lkq = [('q1:k', "'%s'" % v, ds, [(ma1, ua1)], {v}) for v in ('1', '2') for ds in (None, 'other.xml')] + \
+                      [('k', "'%s'" % v, ds, [(ma2, ua2)], {v}) for v in ('1', '2') for ds in (None, 'rtf')]
+                yield ('qname', 'p:k = %s use %s ; k = %s use %s' % (mt1, ut1, mt2, ut2), dq, {}, mi, (mi + 1) % len(D), lkq)
+    # 3. histories: all orders of a 4-lookup (quick) / 5-lookup (thorough) sequence across main document, document() and RTF, two keys
+    for hi, (m1, u1) in enumerate(sel):
         mt1, ma1 = MATCHES[m1]; ut1, ua1 = USES[u1]
         mt2, ma2 = MATCHES[(m1 + 3) % len(MATCHES)]; ut2, ua2 = USES[(u1 + 1) % len(USES)]
         decl = ('<xsl:key name="k" match="%s" use="%s"/><xsl:key name="j" match="%s" use="%s"/>'
                 % (esc(mt1), esc(ut1), esc(mt2), esc(ut2)))
-        four = [('k', "'1'", None, [(ma1, ua1)], {'1'}), ('j', "'2'", None, [(ma2, ua2)], {'2'}),
-                ('k', "'2'", 'other.xml', [(ma1, ua1)], {'2'}), ('j', "'1'", 'other.xml', [(ma2, ua2)], {'1'})]
-        for perm in itertools.permutations(range(4)):
+        ops = [('k', "'1'", None, [(ma1, ua1)], {'1'}), ('j', "'2'", None, [(ma2, ua2)], {'2'}),
+               ('k', "'2'", 'other.xml', [(ma1, ua1)], {'2'}), ('j', "'1'", 'other.xml', [(ma2, ua2)], {'1'})]
+        if thorough:
+            ops.append(('k', "'1'", 'rtf', [(ma1, ua1)], {'1'}))
+        for perm in itertools.permutations(range(len(ops))):
             yield ('history', '%s use %s ; %s use %s ; order %s' % (mt1, ut1, mt2, ut2, ''.join(map(str, perm))),
-                   decl, {}, 0, 1, [four[p] for p in perm])
+                   decl, {}, hi % len(D), (hi + 1) % len(D), [ops[p] for p in perm])
 
 
 def shard_main(shard, nshards, tier):
@@ -167,7 +223,9 @@ def shard_main(shard, nshards, tier):
         counts['declarations'] += 1
         main, other = D[mi], D[oi]
         imp_xml = ''.join('<xsl:import href="%s"/>' % n for n in imports)
-        xsl = stylesheet(decl_xml, [lookup_xml(i, k, a, ds) for i, (k, a, ds, _, _) in enumerate(lookups)], imp_xml)
+        tops = []
+        bodies = [lookup_xml(i, k, a, ds, tops) for i, (k, a, ds, _, _) in enumerate(lookups)]
+        xsl = stylesheet(decl_xml, bodies, imp_xml, ''.join(tops), '<xsl:copy-of select="document(\'other.xml\')/node()"/>')
         args = ['r:other.xml=' + other.to_xml()] + ['r:%s=%s' % kv for kv in imports.items()]
         try:
             r = w.request('tr', xsl, main.to_xml(), *args)
@@ -185,7 +243,7 @@ def shard_main(shard, nshards, tier):
             order = [h.string_value().strip() for h in l.children]
             got[('order', int(l.attrs[0].value))] = order
         for i, (k, a, ds, decls, values) in enumerate(lookups):
-            doc = other if ds else main
+            doc = other if ds in ('other.xml', 'rtf') else main
             if isinstance(values, tuple):
                 # node-set argument: evaluated with the context node of the lookup = root of `doc`
                 vs = set(x.string_value() for x in X.evaluate(values[1], X.Ctx(doc.root)))
@@ -228,12 +286,17 @@ def main():
     cov = {
         'evaluations': counts['evaluations'],
         'distinct_nontrivial': counts['nontrivial'],
-        'rule': 'Every declaration match in {a,*,@x,a/b,text(),a|b,node(),b[@x]} x use in {@x,.,b,@*,\'c\',position(),b|@x,string-length(.),name()} '
-                'x each of 3 documents as main source with another loaded through document() x 9 lookup values + number and node-set '
-                'second arguments, context node in either document; the same name declared twice and in an import (a fifth of / all pairs); '
-                'all 24 orders of a 4-lookup sequence across two documents and two keys inside one transformation. Oracle: brute-force '
-                'definition on the reference tree (nodes matching the pattern whose use-values contain the value), compared as node '
-                'identity lists in document order. An evaluation is one lookup; non-trivial = the expected result is not empty.',
+        'rule': 'Every declaration match in 18 patterns {a,*,@x,a/b,text(),a|b,node(),b[@x],@*,a[b],a[@x=1],//b,r/a,b[1],*[not(*)],'
+                'comment()|processing-instruction(),b[last()],a/@x} x use in 19 expressions (node-set, string, number and boolean valued, '
+                'multi-valued, position()) (quick: a fixed two-thirds of the pairs; thorough: all) x each of 4 documents (one with comments, PIs '
+                'and empty elements) as main source with another loaded through document() and copied into an RTF x 14 lookup values + number, '
+                'boolean and node-set second arguments, with the context node at the root or a deep element or an attribute of the main '
+                'document, in the document() tree, in xalan:nodeset($rtf), and key() used as the match pattern of a template rule applied to '
+                'every node; the same name declared twice and in an import, QName key names through another prefix (a fifth of / all '
+                'pairs x 3 / 6 second declarations, thorough on all 4 documents); all 24 (quick) / 120 (thorough) orders of a 4- / 5-lookup '
+                'sequence across main document, document() and RTF and two keys inside one transformation. Oracle: brute-force definition on '
+                'the reference tree (nodes matching the pattern whose use-values contain the value), compared as node identity lists in '
+                'document order. An evaluation is one lookup; non-trivial = the expected result is not empty.',
         'samples': [x for r in res for x in r['samples']][:6] or ['none'],
         'declarations': counts['declarations'], 'transformations': counts['transformations'],
         'exhaustive': True,
